@@ -188,6 +188,9 @@ class Network(object):
   def __init__(self, env):
     self.env = env
     self.servers = {}
+    self.dns = {}
+    self.addr_owner = {}
+    self.resolutions = 0
     self._conn_id = 0
     self.fault_plan = {}        # (ep, conn_ordinal|None, kind, op_ordinal|None) -> Fault
     self.fault_fn = None        # callable(conn_or_server, kind, ordinal) -> Fault|None
@@ -220,7 +223,10 @@ class Network(object):
 
       @staticmethod
       def getaddrinfo(host, port, *a):
-        return [(AF_INET, SOCK_STREAM, 6, '', (host, port))]
+        # name service: a host name may resolve to an address of its own (net.dns), and that may change
+        net.resolutions += 1
+        key = host.decode('ascii', 'replace') if isinstance(host, bytes) else host
+        return [(AF_INET, SOCK_STREAM, 6, '', (net.dns.get(key, host), port))]
 
     def factory(family=AF_INET, type_=SOCK_STREAM, *a):
       return SimSocket(net)
@@ -232,6 +238,9 @@ class Network(object):
     for c in self.all_conns:
       c.client_closed = True
     self.servers = {}
+    self.dns = {}            # host name -> address it resolves to now (absent: the name is its own address)
+    self.addr_owner = {}     # address -> host name of the server that listens there now
+    self.resolutions = 0
     self.fault_plan = {}
     self.fault_fn = None
     self.connect_hook = None
@@ -334,6 +343,9 @@ class SimSocket(object):
     host, port = addr[0], addr[1]
     if isinstance(host, bytes):        # the resolver accepts bytes host names (Kafka metadata carries them)
       host = host.decode('ascii', 'replace')
+    if self.net.dns or self.net.addr_owner:
+      # an address (as opposed to a name that is its own address) leads to whoever listens there now
+      host = self.net.addr_owner.get(host, None if host in self.net.dns else host)
     srv = self.net.servers.get((host, port))
     env.emit('net.connect.begin', ep='%s:%s' % (host, port))
     if srv is None:
